@@ -88,7 +88,12 @@ var badKinds = []string{"missing-name", "missing-module", "link", "data-oob", "e
 // It returns nil when the kind is not applicable to the generated module.
 func (g *gen) badModule(name, kind string) *ModSpec {
 	r := g.r
+	// values captured by a module that fails cannot be read back through it: failing modules stay
+	// within what the specification allows in constant expressions, and do not import re-exported imports
+	saveL := g.lenient
+	g.lenient, g.noChains = false, true
 	spec := g.genModule(name)
+	g.lenient, g.noChains = saveL, false
 	// (ref.null items are probed where the instantiation succeeds; see elem-null-item)
 	for ei := range spec.Elems {
 		if !spec.Elems[ei].Passive && len(spec.Tables)+1 > 0 {
